@@ -15,6 +15,15 @@ pub const T0: u64 = 1000;
 pub const DT: u64 = 5;
 pub const DENOM: &str = "ucosm";
 pub const DENOM2: &str = "uother";
+/// the deposit denom spelled in upper case: a different bank denom
+pub fn denom_of(d: u8) -> String {
+    match d {
+        0 => DENOM.to_string(),
+        1 => DENOM2.to_string(),
+        // (asset index 2 is the cw20 deposit token in the ledger)
+        _ => DENOM.to_uppercase(),
+    }
+}
 
 pub fn vt_fixed() -> &'static ContractVt {
     static VT: OnceLock<ContractVt> = OnceLock::new();
@@ -34,6 +43,13 @@ pub fn vt_group() -> &'static ContractVt {
         mc::contract_vt!("cw4-group", cw4_group::contract, cw4_group::msg::InstantiateMsg, cw4_group::msg::ExecuteMsg, cw4_group::msg::QueryMsg)
     })
 }
+pub fn vt_stake() -> &'static ContractVt {
+    static VT: OnceLock<ContractVt> = OnceLock::new();
+    VT.get_or_init(|| {
+        mc::contract_vt!("cw4-stake", cw4_stake::contract, cw4_stake::msg::InstantiateMsg, cw4_stake::msg::ExecuteMsg, cw4_stake::msg::QueryMsg)
+    })
+}
+pub const STAKE_DENOM: &str = "ustake";
 pub fn vt_cw20() -> &'static ContractVt {
     static VT: OnceLock<ContractVt> = OnceLock::new();
     VT.get_or_init(|| {
@@ -88,6 +104,8 @@ pub enum PK {
     ExecPrev,
     /// first message closes proposal `id-1`, then a tagged message
     ClosePrev,
+    /// the same tagged message twice in a row, then another one (two equal instalments)
+    TagTwice,
 }
 
 #[derive(Clone, Copy, Debug, PartialEq, Eq, Hash, PartialOrd, Ord, Serialize, Deserialize)]
@@ -205,6 +223,9 @@ pub struct Cfg {
     pub tick_ns: u64,
     /// the group admin may unregister / re-register the multisig as a hook at any time (hooked configurations)
     pub hook_toggle: bool,
+    /// flex: the group behind the multisig is a cw4-stake contract (1 token = 1 weight, min_bond 1); a group
+    /// edit is carried out by the members themselves bonding / unbonding down or up to the weight named
+    pub stake_group: bool,
 }
 
 impl Cfg {
@@ -243,6 +264,7 @@ impl Cfg {
             hooked: false,
             tick_ns: DT * NS,
             hook_toggle: false,
+            stake_group: false,
         }
     }
     /// An actor named "^X" is the account X spelled in upper case (voter lists naming one account twice)
@@ -548,6 +570,7 @@ impl Cw3Model {
                 for (ai, d) in assets.iter().enumerate() {
                     o.bal.insert((h, ai as u8), w.balance(&ad, d));
                 }
+                o.bal.insert((h, 3), w.balance(&ad, &DENOM.to_uppercase()));
                 if matches!(cfg.deposit, Dep::Cw20 { .. }) {
                     match q::<_, cw20::BalanceResponse>(w, &tok(), &cw20::Cw20QueryMsg::Balance { address: ad }) {
                         Ok(b) => {
@@ -627,6 +650,7 @@ impl Cw3Model {
             PK::Reenter => vec![exec(&cw3_fixed_multisig::msg::ExecuteMsg::Execute { proposal_id: pid }), tag(0)],
             PK::ExecPrev => vec![exec(&cw3_fixed_multisig::msg::ExecuteMsg::Execute { proposal_id: prev }), tag(0)],
             PK::ClosePrev => vec![exec(&cw3_fixed_multisig::msg::ExecuteMsg::Close { proposal_id: prev }), tag(0)],
+            PK::TagTwice => vec![tag(0), tag(0), tag(1)],
         }
     }
 
@@ -634,7 +658,16 @@ impl Cw3Model {
         match kind {
             PK::Empty | PK::Pay => 0,
             PK::Tag2 => 2,
+            PK::TagTwice => 3,
             _ => 1,
+        }
+    }
+
+    /// the tag indices a proposal of this kind carries, in order
+    fn tags_of(kind: PK) -> Vec<u32> {
+        match kind {
+            PK::TagTwice => vec![0, 0, 1],
+            k => (0..Cw3Model::n_tags(k)).collect(),
         }
     }
 
@@ -963,7 +996,28 @@ impl Model for Cw3Model {
                 admin: Some(cfg.addr(cfg.group_admin)),
                 members: cfg.voters.iter().map(|(i, wg)| cw4::Member { addr: cfg.addr(*i), weight: *wg }).collect(),
             };
-            let o = w.instantiate(vt_group(), &group(), &creator, &to_json_vec(&gm).unwrap(), &[]);
+            let o = if cfg.stake_group {
+                let sm = cw4_stake::msg::InstantiateMsg {
+                    denom: cw20::Denom::Native(STAKE_DENOM.into()),
+                    tokens_per_weight: Uint128::new(1),
+                    min_bond: Uint128::new(1),
+                    unbonding_period: Duration::Height(1),
+                    admin: Some(cfg.addr(cfg.group_admin)),
+                };
+                let o = w.instantiate(vt_stake(), &group(), &creator, &to_json_vec(&sm).unwrap(), &[]);
+                for (i, wg) in &cfg.voters {
+                    w.set_balance(&cfg.addr(*i), STAKE_DENOM, 1_000);
+                    if *wg > 0 {
+                        let b = w.execute_json(&cfg.addr(*i), &group(), &cw4_stake::msg::ExecuteMsg::Bond {}, &[coin(*wg as u128, STAKE_DENOM)]);
+                        if !b.ok() {
+                            v.push(Violation::new("cfg.initial_bond_refused", b.err()));
+                        }
+                    }
+                }
+                o
+            } else {
+                w.instantiate(vt_group(), &group(), &creator, &to_json_vec(&gm).unwrap(), &[])
+            };
             if !o.ok() {
                 r.dead = true;
                 return (State { w, r, obs: Arc::new(Obs::default()) }, v);
@@ -1028,6 +1082,7 @@ impl Model for Cw3Model {
             for i in 0..cfg.actors.len() as u8 {
                 w.set_balance(&cfg.addr(i), DENOM, cfg.purse);
                 w.set_balance(&cfg.addr(i), DENOM2, 1);
+                w.set_balance(&cfg.addr(i), &DENOM.to_uppercase(), 2);
             }
         }
         let obs = self.observe(&w);
@@ -1141,6 +1196,37 @@ impl Model for Cw3Model {
                     *r.bal.entry((MS, 0)).or_insert(0) += 1;
                 }
             }
+            Act::GroupUpdate { edit, .. } if cfg.stake_group => {
+                // every member named moves its own stake to the weight named (a removal = unbond everything)
+                let e = &cfg.edits[*edit as usize];
+                let targets: Vec<(u8, u64)> = e.add.iter().copied().chain(e.remove.iter().map(|i| (*i, 0))).collect();
+                ok = true;
+                for (i, want) in targets {
+                    let cur = r.group_now.get(&i).copied().unwrap_or(0);
+                    let o = if want > cur {
+                        w.set_balance(&cfg.addr(i), STAKE_DENOM, 1_000);
+                        w.execute_json(&cfg.addr(i), &group(), &cw4_stake::msg::ExecuteMsg::Bond {}, &[coin((want - cur) as u128, STAKE_DENOM)])
+                    } else if want < cur {
+                        w.execute_json(&cfg.addr(i), &group(), &cw4_stake::msg::ExecuteMsg::Unbond { tokens: Uint128::new((cur - want) as u128) }, &[])
+                    } else {
+                        continue;
+                    };
+                    if !o.ok() {
+                        v.push(Violation::new("cfg.stake_move_refused", format!("{a:?}: {}", o.err())));
+                        ok = false;
+                        break;
+                    }
+                    if want == 0 {
+                        r.group_now.remove(&i);
+                    } else {
+                        r.group_now.insert(i, want);
+                    }
+                }
+                if ok {
+                    r.changed_this_block = true;
+                    r.edits += 1;
+                }
+            }
             Act::GroupUpdate { by, edit } => {
                 let e = &cfg.edits[*edit as usize];
                 let m = cw4_group::msg::ExecuteMsg::UpdateMembers {
@@ -1185,7 +1271,7 @@ impl Model for Cw3Model {
             }
             Act::Propose { by, kind, latest, funds } => {
                 let pid = r.props.len() as u64 + 1;
-                let coins: Vec<Coin> = funds.iter().map(|(d, am)| coin(*am as u128, if *d == 0 { DENOM } else { DENOM2 })).collect();
+                let coins: Vec<Coin> = funds.iter().map(|(d, am)| coin(*am as u128, denom_of(*d))).collect();
                 let title = format!("p{pid}");
                 let msgs = self.msgs_of(*kind, pid);
                 let lat = self.latest_of(*latest, h, t);
@@ -1266,7 +1352,7 @@ impl Model for Cw3Model {
                     // retryable: a Passed proposal whose messages can be delivered must be executable by an authorised caller
                     if let Some(po) = pre.props.iter().find(|p| p.id == *id) {
                         let pr = &r.props[(*id - 1) as usize];
-                        let deliverable = matches!(pr.kind, PK::Empty | PK::Tag1 | PK::Tag2) && !w.failing.contains(&sink());
+                        let deliverable = matches!(pr.kind, PK::Empty | PK::Tag1 | PK::Tag2 | PK::TagTwice) && !w.failing.contains(&sink());
                         if po.status == St::Passed && !pr.executed && deliverable && self.authorised(&r, Some(*by)) {
                             v.push(Violation::new("C05.passed_proposal_is_executable", format!("{a:?} refused: {}", out_tx.as_ref().map(|o| o.err()).unwrap_or_default())));
                         }
@@ -1460,7 +1546,7 @@ impl Model for Cw3Model {
                     v.push(Violation::new("C05.dispatch_only_inside_execute", format!("{a:?}: messages of proposal {pid} were dispatched")));
                 }
                 let pr = &mut r.props[(*pid - 1) as usize];
-                let want: Vec<u32> = (0..Cw3Model::n_tags(pr.kind)).collect();
+                let want: Vec<u32> = Cw3Model::tags_of(pr.kind);
                 if *tags != want {
                     v.push(Violation::new("C05.dispatched_exactly_as_proposed", format!("{a:?}: proposal {pid} delivered message indices {:?}, proposed {:?}", tags, want)));
                 }
